@@ -1,16 +1,25 @@
 // @append-to: src/redis/data/skiplist.rs
 // BOUNDED stand-in (Kani) for the contracts that unit `zset_container` (Verus) ASSUMES for the contract-only `SkipList`:
-//   new / len / insert / remove_with_score / rank / range / rev_range over the abstract value "the (member, score) pairs
-//   reached by walking level 0 from the header", which must be strictly sorted by (score, member bytes).
+//   len / insert / remove_with_score / rank / range / rev_range over the abstract value "the (member, score) pairs reached by
+//   walking level 0 from the header", which must be strictly sorted by (score, member bytes).
 // The specification side (`Model`) is written from those contracts, NOT from the code: a sorted array of (member, score).
-// BOUNDS: at most 3 elements are ever linked; members are the empty string or one byte (4 distinct members: "", 0x01,
-// 0x02, 0x03 - the empty member exercises "a proper prefix sorts first"); scores range over the 6 values
-// -inf, -1.5, -0.0, 0.0, 1.0, +inf (both zeros: IEEE == identifies them, the stored bits must be kept); node levels
-// range over 1..=3 of the 32.  States are those REACHABLE by `new`, up to 3 `insert`s and at most one
-// `remove_with_score` (not arbitrary arena contents).
-// RANDOM LEVELS: `SkipList::random_level` (xorshift + float compare) is replaced through `#[kani::stub]` by
-// `any_level`, which returns a nondeterministic level in 1..=3 (kani::any()), so every combination of tower heights within
-// the bound is explored, including those the fixed seed would never produce; the generator itself is not under test.
+// BOUNDS (what CBMC can do on this arena - see NOT REACHED below): the STATE before the operation under test is one of a
+// few CONCRETE reachable states of 2 or 3 elements (built by real `insert` / `remove_with_score` calls with fixed members,
+// scores and tower heights 1..=3: ties on the score, both zeros, an infinite score, a freed slot); the ARGUMENTS of the
+// operation under test are symbolic (kani::any()): any of the 4 members "", 0x01, 0x02, 0x03 (the empty member exercises
+// "a proper prefix sorts first"), any of the 6 scores -inf, -1.5, -0.0, 0.0, 1.0, +inf (IEEE == identifies the zeros, the
+// stored bits must be kept), start / end of range / rev_range over 0..=5 and usize::MAX.
+// RANDOM LEVELS: `SkipList::random_level` (xorshift + float compare) is replaced through `#[kani::stub]` by `next_level`,
+// which returns the value the harness has put into `rng_state` just before the call (tower heights 1..=3, fixed per call
+// site).  The level generator itself is not under test (it only decides heights).
+// The empty list is built by `fresh()` exactly as `SkipList::new()` builds it EXCEPT that the header tower has 3 levels
+// instead of SKIPLIST_MAXLEVEL = 32 (the 32-iteration initialisation forces unwind 33 on every loop of the harness); with
+// heights <= 3 the code may only touch header levels 0..=2 - an access above would be an index panic, which Kani reports.
+// NOT REACHED by Kani (measured): the same harnesses over SYMBOLIC states - 3 inserts of symbolic (member, score) with
+// symbolic heights 1..=3, or with fixed heights, or 2 inserts with heights 1..=2 - did not finish: symbolic execution alone
+// took 85 .. 295 s and the solver ran out of the 400 s budget (one run reached 48 GB of memory and was killed).  Symbolic
+// states, `SkipList::new()` and long runs with the real level generator are covered by the replay driver
+// replay/src/zset_container.rs (differential, whole-state check after every operation), not by Kani.
 #[cfg(kani)]
 mod verif_kani_skiplist {
     use super::*;
@@ -18,10 +27,12 @@ mod verif_kani_skiplist {
     const MAXN: usize = 3;
     const MAXL: usize = 3;
 
-    fn any_level(_sl: &mut SkipList) -> usize {
-        let l: usize = kani::any();
-        kani::assume(l >= 1 && l <= MAXL);
-        l
+    // the stub of random_level: the height the harness asked for
+    fn next_level(sl: &mut SkipList) -> usize { sl.rng_state as usize }
+    fn insert_at_level(sl: &mut SkipList, member: Vec<u8>, score: f64, level: usize) -> bool {
+        assert!(level >= 1 && level <= MAXL);
+        sl.rng_state = level as u64;
+        sl.insert(member, score)
     }
     fn score_of(c: u8) -> f64 {
         match c { 0 => f64::NEG_INFINITY, 1 => -1.5, 2 => -0.0, 3 => 0.0, 4 => 1.0, _ => f64::INFINITY }
@@ -75,63 +86,80 @@ mod verif_kani_skiplist {
         }
         assert!(cur.is_none());
     }
-    // a reachable state: n <= max_n inserts of distinct members, then possibly one removal
-    fn build(max_n: usize, with_removal: bool) -> (SkipList, Model) {
-        let mut sl = SkipList::new();
+    // `SkipList::new()` with a 3-level header (see the file comment)
+    fn fresh() -> SkipList {
+        let header = SkipListNode {
+            member: Vec::new(),
+            score: 0.0,
+            levels: vec![
+                SkipListLevel { forward: None, span: 0 },
+                SkipListLevel { forward: None, span: 0 },
+                SkipListLevel { forward: None, span: 0 },
+            ],
+            backward: None,
+        };
+        SkipList { nodes: vec![Some(header)], free_slots: Vec::new(), tail: None, level: 1, length: 0, rng_state: 0x853c49e6748fea9b }
+    }
+    // a CONCRETE reachable state: one real insert per (member code, score code, tower height), then, if asked, the real
+    // removal of the element at position `remove_at` of the sorted sequence
+    fn build(script: &[(u8, u8, usize)], remove_at: Option<usize>) -> (SkipList, Model) {
+        let mut sl = fresh();
         let mut m = Model::new();
-        let n: usize = kani::any();
-        kani::assume(n <= max_n);
         let mut i = 0;
-        while i < n {
-            let c = any_code();
-            kani::assume(m.lacks(c));
-            let s = any_score();
-            sl.insert(member_of(c), s);
+        while i < script.len() {
+            let (c, sc, level) = script[i];
+            let s = score_of(sc);
+            assert!(m.lacks(c));
+            let r = insert_at_level(&mut sl, member_of(c), s, level);
+            assert!(r);
             m.insert((c, s));
             i += 1;
         }
-        if with_removal && n > 0 && kani::any() {
-            let p: usize = kani::any();
-            kani::assume(p < m.n);
+        if let Some(p) = remove_at {
             let (c, s) = m.e[p];
             let r = sl.remove_with_score(member_of(c), s);
             assert!(r);
             m.remove(p);
         }
+        same(&sl, &m);
         (sl, m)
     }
+    // S1: distinct scores incl. a zero and +inf, heights 2,1,3;  S2: three-way tie on the score (order by member), heights 1,3,2
+    // S3: -0.0 and 0.0 (IEEE-equal, ordered by member) and -inf, heights 3,1,2;  S4: S1 after the removal of its middle element
+    const S1: [(u8, u8, usize); 3] = [(2, 3, 2), (0, 5, 1), (3, 1, 3)];
+    const S2: [(u8, u8, usize); 3] = [(3, 4, 1), (1, 4, 3), (2, 4, 2)];
+    const S3: [(u8, u8, usize); 3] = [(1, 3, 3), (2, 2, 1), (0, 0, 2)];
+    const S12: [(u8, u8, usize); 2] = [(2, 3, 2), (3, 1, 3)];
+    fn any_index() -> usize { let i: usize = kani::any(); kani::assume(i <= 5 || i == usize::MAX); i }
 
-    // @harness: skiplist_insert_links_at_sorted_position
-    // @bound: <= 2 elements before the call (reachable states incl. one removal), 4 members, 6 scores, levels 1..=3; unwind 34
-    // @tier: quick
-    // @complete: false
-    // @props: C01
-    #[kani::proof]
-    #[kani::unwind(34)]
-    #[kani::stub(SkipList::random_level, any_level)]
-    fn skiplist_insert_links_at_sorted_position() {
-        let (mut sl, mut m) = build(MAXN - 1, true);
-        same(&sl, &m);
+    fn check_insert(script: &[(u8, u8, usize)], remove_at: Option<usize>, level: usize) {
+        let (mut sl, mut m) = build(script, remove_at);
         let c = any_code();
         kani::assume(m.lacks(c));
         let s = any_score();
-        let r = sl.insert(member_of(c), s);
+        let r = insert_at_level(&mut sl, member_of(c), s, level);
         assert!(r);
         m.insert((c, s));
         same(&sl, &m);
         std::mem::forget(sl);
     }
-
-    // @harness: skiplist_remove_with_score_unlinks_exactly_the_match
-    // @bound: <= 3 elements, 4 members, 6 scores, levels 1..=3; unwind 34
+    // @harness: skiplist_insert_links_at_sorted_position
+    // @bound: concrete states S12 (2 elements), S1 / S2 / S3 after one removal (2 elements, a freed slot); the inserted (member, score) symbolic: the one or two absent members x 6 scores; heights 1, 2, 3; unwind 6
     // @tier: quick
     // @complete: false
     // @props: C01
     #[kani::proof]
-    #[kani::unwind(34)]
-    #[kani::stub(SkipList::random_level, any_level)]
-    fn skiplist_remove_with_score_unlinks_exactly_the_match() {
-        let (mut sl, mut m) = build(MAXN, false);
+    #[kani::unwind(6)]
+    #[kani::stub(SkipList::random_level, next_level)]
+    fn skiplist_insert_links_at_sorted_position() {
+        check_insert(&S12, None, 1);
+        check_insert(&S1, Some(1), 2);
+        check_insert(&S2, Some(0), 3);
+        check_insert(&S3, Some(2), 2);
+    }
+
+    fn check_remove(script: &[(u8, u8, usize)]) {
+        let (mut sl, mut m) = build(script, None);
         let c = any_code();
         let s = any_score();
         let r = sl.remove_with_score(member_of(c), s);
@@ -143,23 +171,28 @@ mod verif_kani_skiplist {
         // the update path of RedisSortedSet::add: re-insert the member with another score
         if r {
             let s2 = any_score();
-            assert!(sl.insert(member_of(c), s2));
+            assert!(insert_at_level(&mut sl, member_of(c), s2, 2));
             m.insert((c, s2));
             same(&sl, &m);
         }
         std::mem::forget(sl);
     }
-
-    // @harness: skiplist_rank_is_the_position
-    // @bound: <= 3 elements (reachable states incl. one removal), 4 members, 6 scores, levels 1..=3; unwind 34
+    // @harness: skiplist_remove_with_score_unlinks_exactly_the_match
+    // @bound: concrete states S1, S2, S3 (3 elements); the (member, score) to remove symbolic: 4 members x 6 scores, present or not; if removed, re-inserted with any of the 6 scores; unwind 6
     // @tier: quick
     // @complete: false
     // @props: C01
     #[kani::proof]
-    #[kani::unwind(34)]
-    #[kani::stub(SkipList::random_level, any_level)]
-    fn skiplist_rank_is_the_position() {
-        let (sl, m) = build(MAXN, true);
+    #[kani::unwind(6)]
+    #[kani::stub(SkipList::random_level, next_level)]
+    fn skiplist_remove_with_score_unlinks_exactly_the_match() {
+        check_remove(&S1);
+        check_remove(&S2);
+        check_remove(&S3);
+    }
+
+    fn check_rank(script: &[(u8, u8, usize)], remove_at: Option<usize>) {
+        let (sl, m) = build(script, remove_at);
         let c = any_code();
         let s = any_score();
         let r = sl.rank(member_of(c), s);
@@ -169,6 +202,20 @@ mod verif_kani_skiplist {
             _ => assert!(false),
         }
         std::mem::forget(sl);
+    }
+    // @harness: skiplist_rank_is_the_position
+    // @bound: concrete states S1, S2, S3 (3 elements) and S1 after one removal; the (member, score) asked for symbolic: 4 members x 6 scores; unwind 6
+    // @tier: quick
+    // @complete: false
+    // @props: C01
+    #[kani::proof]
+    #[kani::unwind(6)]
+    #[kani::stub(SkipList::random_level, next_level)]
+    fn skiplist_rank_is_the_position() {
+        check_rank(&S1, None);
+        check_rank(&S2, None);
+        check_rank(&S3, None);
+        check_rank(&S1, Some(1));
     }
 
     // elements start..=end of the model (end clamped), empty when start > end or start out of range
@@ -187,40 +234,40 @@ mod verif_kani_skiplist {
             }
         }
     }
-
-    // @harness: skiplist_range_is_the_subsequence
-    // @bound: <= 3 elements (reachable states incl. one removal), start / end over all of usize; unwind 34
-    // @tier: quick
-    // @complete: false
-    // @props: C01
-    #[kani::proof]
-    #[kani::unwind(34)]
-    #[kani::stub(SkipList::random_level, any_level)]
-    fn skiplist_range_is_the_subsequence() {
-        let (sl, m) = build(MAXN, true);
-        let start: usize = kani::any();
-        let end: usize = kani::any();
-        let r = sl.range(start, end);
-        check_window(&r, &m, start, end, false);
+    fn check_range(script: &[(u8, u8, usize)], remove_at: Option<usize>, reversed: bool) {
+        let (sl, m) = build(script, remove_at);
+        let start = any_index();
+        let end = any_index();
+        let r = if reversed { sl.rev_range(start, end) } else { sl.range(start, end) };
+        check_window(&r, &m, start, end, reversed);
         std::mem::forget(r);
         std::mem::forget(sl);
     }
-
-    // @harness: skiplist_rev_range_is_the_reversed_subsequence
-    // @bound: <= 3 elements (reachable states incl. one removal), start / end over all of usize; unwind 34
+    // @harness: skiplist_range_is_the_subsequence
+    // @bound: concrete states S1, S3 (3 elements) and S2 after one removal (2 elements); start, end symbolic in 0..=5 and usize::MAX; unwind 6
     // @tier: quick
     // @complete: false
     // @props: C01
     #[kani::proof]
-    #[kani::unwind(34)]
-    #[kani::stub(SkipList::random_level, any_level)]
+    #[kani::unwind(6)]
+    #[kani::stub(SkipList::random_level, next_level)]
+    fn skiplist_range_is_the_subsequence() {
+        check_range(&S1, None, false);
+        check_range(&S3, None, false);
+        check_range(&S2, Some(1), false);
+    }
+
+    // @harness: skiplist_rev_range_is_the_reversed_subsequence
+    // @bound: concrete states S2, S3 (3 elements) and S1 after one removal (2 elements); start, end symbolic in 0..=5 and usize::MAX; unwind 6
+    // @tier: quick
+    // @complete: false
+    // @props: C01
+    #[kani::proof]
+    #[kani::unwind(6)]
+    #[kani::stub(SkipList::random_level, next_level)]
     fn skiplist_rev_range_is_the_reversed_subsequence() {
-        let (sl, m) = build(MAXN, true);
-        let start: usize = kani::any();
-        let end: usize = kani::any();
-        let r = sl.rev_range(start, end);
-        check_window(&r, &m, start, end, true);
-        std::mem::forget(r);
-        std::mem::forget(sl);
+        check_range(&S2, None, true);
+        check_range(&S3, None, true);
+        check_range(&S1, Some(0), true);
     }
 }
